@@ -105,6 +105,20 @@ func c14Families(tier string) []engine.Family {
 	leaves := c14Leaves(tierPick(tier, 5, 9))
 	maxNodes := tierPick(tier, 4, 5)
 	hostile := []int{1, 1 << 16, 1 << 24, 1 << 31, 1 << 62, 1<<63 - 1}
+	kcLeaves := []model.Event{model.SInt(model.KInt8, -1), model.Str("a"), model.StrRef("r"), model.Nil(), model.Bool(true), model.F64(0x3fe0000000000000),
+		model.UInt(model.KUint64, 1<<64-1), model.SInt(model.KInt, -70000), model.F32(0x3dcccccd), model.UInt(model.KByte, 200),
+		model.SInt(model.KInt16, 300), model.SInt(model.KInt32, -1<<31), model.SInt(model.KInt64, 1<<62), model.UInt(model.KUint8, 255), model.UInt(model.KUint16, 1), model.UInt(model.KUint32, 1<<32-1), model.UInt(model.KUint, 7)}
+	kcTargets := append([]c14Target{}, targets...)
+	{
+		tStr := reflect.TypeOf("")
+		scalarish := append(append(append([]gen.FieldType{}, gen.ScalarTypes...), gen.FieldType{Name: "interface{}", T: reflect.TypeOf((*interface{})(nil)).Elem()}), gen.NamedScalarTypes()...)
+		for _, b := range scalarish {
+			kcTargets = append(kcTargets, c14Target{b.Name, b.T}, c14Target{"[]" + b.Name, reflect.SliceOf(b.T)}, c14Target{"map[string]" + b.Name, reflect.MapOf(tStr, b.T)},
+				c14Target{"*" + b.Name, reflect.PtrTo(b.T)}, c14Target{"[2]" + b.Name, reflect.ArrayOf(2, b.T)}, c14Target{"[][]" + b.Name, reflect.SliceOf(reflect.SliceOf(b.T))},
+				c14Target{"map[string][]" + b.Name, reflect.MapOf(tStr, reflect.SliceOf(b.T))}, c14Target{"map[string]map[string]" + b.Name, reflect.MapOf(tStr, reflect.MapOf(tStr, b.T))},
+				c14Target{"struct{A []" + b.Name + "; B map[string]" + b.Name + "}", reflect.StructOf([]reflect.StructField{{Name: "A", Type: reflect.SliceOf(b.T)}, {Name: "B", Type: reflect.MapOf(tStr, b.T)}})})
+		}
+	}
 
 	// one (stream, target) run with all oracles; returns the result dump
 	runPair := func(x *engine.Exec, tg c14Target, evs []model.Event, class string, fam string) {
@@ -212,6 +226,32 @@ func c14Families(tier string) []engine.Family {
 			}
 			x.Count("hostile_lengths_run", 1)
 			runPair(x, tg, evs, fmt.Sprintf("hostile-length:%s", kindClass(tg.t)), "hostile-lengths")
+		}},
+		{Name: "kind-cross", Arity: []int{len(kcTargets), len(kcLeaves)}, Body: func(x *engine.Exec) {
+			// every event kind at the value position of every unfolder state: each target type (all primitive kinds, built-in and
+			// named, and their containers) x each scalar event kind, bare and inside arrays/objects, with and without a type hint
+			tg := kcTargets[x.Choose(len(kcTargets))]
+			ev := kcLeaves[x.Choose(len(kcLeaves))]
+			hint := structform.AnyType
+			if x.Bool() {
+				hint = hintOf(ev.K)
+			}
+			var evs []model.Event
+			switch x.Choose(6) {
+			case 0:
+				evs = []model.Event{ev}
+			case 1:
+				evs = []model.Event{model.ArrStart(2, hint), ev, ev, model.ArrEnd()}
+			case 2:
+				evs = []model.Event{model.ObjStart(-1, hint), model.KeyRef("a"), ev, model.ObjEnd()}
+			case 3:
+				evs = []model.Event{model.ArrStart(-1, 0), model.ArrStart(1, hint), ev, model.ArrEnd(), model.Nil(), model.ArrEnd()}
+			case 4:
+				evs = []model.Event{model.ObjStart(1, 0), model.Key("a"), model.ObjStart(1, hint), model.Key("a"), ev, model.ObjEnd(), model.ObjEnd()}
+			default:
+				evs = []model.Event{model.ObjStart(-1, 0), model.Key("a"), model.ArrStart(-1, hint), ev, model.Nil(), model.ArrEnd(), model.Key("b"), ev, model.ObjEnd()}
+			}
+			runPair(x, tg, evs, "kind-cross:"+kindClass(tg.t)+"<-"+leafClass(ev), "kind-cross")
 		}},
 		{Name: "deep-nesting", Body: func(x *engine.Exec) {
 			tIfc := reflect.TypeOf((*interface{})(nil)).Elem()
